@@ -243,8 +243,11 @@ func TestFieldTable(t *testing.T) {
 		}
 		names = append(names, fmt.Sprintf("%s(%d fields)", sp.name, len(cov)))
 		evid.CountN("fields-covered."+sp.name, len(cov))
-		// the generator panics on a field kind it does not know
-		rapid.Check(t, func(rt *rapid.T) { generate(rt, sp) })
+		for _, p := range cov {
+			if strings.HasSuffix(p, "!unsupported") {
+				t.Fatalf("%s: field %s has a kind the engine cannot generate and is not listed as excluded by design", sp.name, strings.TrimSuffix(p, "!unsupported"))
+			}
+		}
 	}
 	sort.Strings(names)
 	evid.Extra("types", strings.Join(names, ", "))
